@@ -207,6 +207,17 @@ fn check_crash_copy(ctx: &Ctx, c: &Case10, live: &Live, l: usize, side: &std::co
             }
         }
         vensure_eq!(cont.n_commits(), n_before, "C10/retry-after-recovery-appended-a-transaction", "{what}");
+        // a further stop after the recovered host has appended: what it acknowledged must
+        // survive too (recover - continue - reopen)
+        let after = cont.facts();
+        let commits_after: Vec<[u8; 32]> = cont.host.runtime_wal().map(|w| w.commits().iter().map(|c| c.commit_digest).collect()).unwrap_or_default();
+        let n_wl = c.seed.worldlines.len();
+        drop(cont);
+        let mut again = open_host(&c.seed, &root).map_err(|e| Fail::new("C10/reopen-after-continuation-failed", format!("{what}: the host that recovered and continued cannot be reopened: {e}")))?;
+        let commits_again: Vec<[u8; 32]> = again.runtime_wal().map(|w| w.commits().iter().map(|c| c.commit_digest).collect()).unwrap_or_default();
+        vensure!(commits_again == commits_after, "C10/reopen-after-continuation-lost-transactions", "{what}: {} transactions before the reopen, {} after", commits_after.len(), commits_again.len());
+        let got = facts_of(&mut again, n_wl, &subs);
+        vensure!(got == after, "C10/reopen-after-continuation-lost-acknowledged-facts", "{what}\n before the reopen: {after:?}\n after: {got:?}");
         Ok(())
     })();
     let _ = std::fs::remove_dir_all(&root);
@@ -318,7 +329,9 @@ fn check10_inner(ctx: &Ctx, c: &Case10, dir: &std::path::Path, probe: &mut Probe
         let after_ix = live.snaps.iter().position(|s| s.seg_len >= *l).unwrap_or(live.snaps.len() - 1);
         let before_ix = after_ix.saturating_sub(1);
         let mut versions = vec![(before_ix, "side files as before that operation")];
-        if live.snaps[after_ix].side != live.snaps[before_ix].side {
+        // the writer persists the ledger only after the commit marker has been synced, so the
+        // newer side files can coexist only with a segment that holds the whole operation
+        if live.snaps[after_ix].seg_len == *l && live.snaps[after_ix].side != live.snaps[before_ix].side {
             versions.push((after_ix, "side files as after that operation"));
         }
         for (ix, tag) in versions {
